@@ -211,10 +211,19 @@ def r18_2(ctx):
         dead_is_none = len(r) == 1 and is_call(r[0], 'Option::<T>::is_some') and r[0][2][0][0] == 'param'
         ctx.check(R, dead_is_none, 'Str:can_match', 'Str::can_match must be "state is Some" (found %s)' % [fmt(x)[:50] for x in r], fn=cm)
         outs = set()
-        for p in explore(acc, oracle=lambda e, c: 0 if (e[0] == 'discr' and e[1][0] == 'param') else None, max_visits=1):
+
+        def dead_oracle(e, c):
+            # the state parameter is None: `match *pos` sees variant 0, `(*pos)?` branches to Break (variant 1)
+            if e[0] == 'discr' and e[1][0] == 'param':
+                return 0
+            if e[0] == 'discr' and is_call(e[1], 'Try>::branch') and e[1][2][0][0] == 'param':
+                return 1
+            return None
+        for p in explore(acc, oracle=dead_oracle, max_visits=1):
             if p.end == 'return':
                 rv = p.ret()
-                outs.add('None' if rv[0] == 'agg' and rv[1].endswith('::None') else fmt(rv)[:40])
+                none = (rv[0] == 'agg' and rv[1].endswith('::None')) or (is_call(rv, 'from_residual') and 'std::option::Option<T> as' in rv[1])     # `?` on None returns None
+                outs.add('None' if none else fmt(rv)[:40])
         ctx.check(R, outs == {'None'}, 'Str:dead-closed', 'from the dead state (None) accept must stay dead: %s' % sorted(outs), fn=acc)
         r = [p.ret() for p in explore(im, max_visits=1) if p.end == 'return']
         ok = len(r) == 1 and is_call(r[0], 'PartialEq>::eq') and r[0][2][0][0] == 'param' and r[0][2][1][0] == 'agg' and r[0][2][1][1].endswith('::Some')
@@ -228,9 +237,12 @@ def r18_2(ctx):
                     d = [x for x in p.decisions if (is_call(x[2], 'PartialEq>::eq') or (x[2][0] == 'bin' and x[2][1] == 'Eq')) and x[3] == 1
                          and any(y[0] == 'param' and y[2] == 3 for y in walk(x[2]))]
                     # the other side is the pattern byte at the current position: string.get(pos) or string[pos]
+                    def is_pos(z):
+                        # the position held in the state: `(*pos as Some).0` or the payload taken with `?`
+                        return (z[0] == 'variant' and z[2] == 'Some') or (z[0] == 'okof' and z[1][0] == 'param')
                     elem = bool(d) and (any(is_call(y, '<impl [T]>::get') for y in walk(d[-1][2]))
-                                        or any(y[0] == 'index' and any(z[0] == 'field' and z[2] == 'string' for z in walk(y[1])) and any(z[0] == 'variant' and z[2] == 'Some' for z in walk(y[2])) for y in walk(d[-1][2])))
-                    adv = bool(d) and elem and rv[2][0][1][0] == 'bin' and rv[2][0][1][1] == 'Add' and rv[2][0][1][3] == ('const', 1) and any(z[0] == 'variant' and z[2] == 'Some' for z in walk(rv[2][0][1][2]))
+                                        or any(y[0] == 'index' and any(z[0] == 'field' and z[2] == 'string' for z in walk(y[1])) and any(is_pos(z) for z in walk(y[2])) for y in walk(d[-1][2])))
+                    adv = bool(d) and elem and rv[2][0][1][0] == 'bin' and rv[2][0][1][1] == 'Add' and rv[2][0][1][3] == ('const', 1) and any(is_pos(z) for z in walk(rv[2][0][1][2]))
         ctx.check(R, adv, 'Str:advance', 'Str::accept must advance by one exactly when the pattern byte at the current position equals the input byte', fn=acc)
     # Subsequence: will_always_match(s) = (s == len); accept keeps s when s == len; is_match is the same predicate
     ty = "Subsequence<'a>"
